@@ -82,11 +82,18 @@ pub fn gen_hard(rng: &mut ChaCha8Rng) -> LmSpec {
         let j = rng.gen_range(0..n);
         obj[j] *= [1e4, 1e5][rng.gen_range(0..2)];
     }
+    // objectives in thousandths: every relative quantity is then far below its absolute namesake
+    let small = rng.gen_bool(0.15);
+    if small {
+        for c in obj.iter_mut() {
+            *c *= 0.001;
+        }
+    }
     LmSpec {
         vars,
         rows,
         obj,
-        offset: if rng.gen_bool(0.2) { 10.0 } else { 0.0 },
+        offset: if rng.gen_bool(0.2) && !small { 10.0 } else { 0.0 },
         sense: if covering { "min" } else { "max" }.to_string(),
     }
 }
@@ -412,7 +419,8 @@ impl Driver for C15 {
                                     // relative to the larger of the returned and the true objective, with and without
                                     // the constant offset (the back end does not see the offset)
                                     let off = q(lm.objective_offset()).unwrap_or_else(zero);
-                                    let mut denom = qmax(&one(), &got.abs());
+                                    // (no floor of 1: the gap is relative, for an objective of 0.2 a gap of 0.01 is 0.002)
+                                    let mut denom = got.abs();
                                     for v in [value.abs(), (&got - &off).abs(), (value - &off).abs()] {
                                         denom = qmax(&denom, &v);
                                     }
@@ -517,7 +525,7 @@ impl Driver for C15 {
         Some((format!("never-returns({};{lim})", c.kind), format!("the call did not return: worker ended with {} ({lim})", c.kind)))
     }
     fn rule(&self) -> String {
-        "small MILP models (knapsack / covering models of 5-12 Boolean, integer and bounded continuous variables with 1-3 capacity rows and an optional equality, which need a real branch-and-bound search; 15% with one objective coefficient multiplied by 1e4 or 1e5; plus G-lp models incl. infeasible, unbounded and continuous ones). Each model is first solved without limits (median of three timings); then ~57 settings: door (solve_milp_lp_problem_with, the Microlp solver object, ModelBuilder::solve_with(Microlp..) with handle read-back) x time limit (none, 0, 0.2%..85% of the unlimited time, 1.2x..50x, Duration::MAX) x MIP gap (none, 0, -0, 1e-9, 0.01, 0.1, 0.5, 10; invalid: -0.1, NaN, +inf, -inf, -1e-300). Oracle per outcome: a returned solution must pass the exact certificate (bounds, integrality, rows within 1e-6, value = c.x); label Optimal requires the objective within gap*max(1,|returned|,|optimum|, the same without the offset) + 1e-6 of the certified exact optimum; models whose exact answer lies beyond 1e6 or on a ray with rounding-level slope are skipped; label Feasible only requires feasibility; Infeasible/Unbounded must match the certified verdict; any other error is accepted only when a finite time limit was set; invalid gaps must give an error. A replay repeats the recorded setting up to 300 times because the landing point of a time limit is timing dependent. non-trivial = distinct (model, setting) judged".into()
+        "small MILP models (knapsack / covering models of 5-12 Boolean, integer and bounded continuous variables with 1-3 capacity rows and an optional equality, which need a real branch-and-bound search; 15% with one objective coefficient multiplied by 1e4 or 1e5; plus G-lp models incl. infeasible, unbounded and continuous ones). Each model is first solved without limits (median of three timings); then ~57 settings: door (solve_milp_lp_problem_with, the Microlp solver object, ModelBuilder::solve_with(Microlp..) with handle read-back) x time limit (none, 0, 0.2%..85% of the unlimited time, 1.2x..50x, Duration::MAX) x MIP gap (none, 0, -0, 1e-9, 0.01, 0.1, 0.5, 10; invalid: -0.1, NaN, +inf, -inf, -1e-300). Oracle per outcome: a returned solution must pass the exact certificate (bounds, integrality, rows within 1e-6, value = c.x); label Optimal requires the objective within gap*max(|returned|,|optimum|, the same without the offset) + 1e-6 of the certified exact optimum; models whose exact answer lies beyond 1e6 or on a ray with rounding-level slope are skipped; label Feasible only requires feasibility; Infeasible/Unbounded must match the certified verdict; any other error is accepted only when a finite time limit was set; invalid gaps must give an error. A replay repeats the recorded setting up to 300 times because the landing point of a time limit is timing dependent. non-trivial = distinct (model, setting) judged".into()
     }
     fn thresholds(&self, tier: Tier) -> Thresholds {
         let s = tier.pick(1, 25);
@@ -539,7 +547,7 @@ impl Driver for C15 {
     fn assumptions(&self) -> Vec<String> {
         vec![
             "where a time limit lands is timing dependent; coverage of 'interrupted before incumbent' and 'interrupted with incumbent' is reported as observed label counts, not guaranteed per model".into(),
-            "relative gap is judged generously: gap * max(1, |returned objective|) plus the 1e-6 tolerance".into(),
+            "relative gap is judged generously: gap * max(|returned objective|, |optimum|, each with and without the constant offset) plus the 1e-6 tolerance".into(),
         ]
     }
 }
